@@ -257,6 +257,18 @@ def gen(rng: random.Random, tier: str):
         cases.append(mk(t1, t2, sep, only, al, ("twin", "only" if only else "all")))
     for only in (True, False):
         cases.append(mk(L("r", L("x", age=1), L("y", age=2)), L("r", L("y", age=1), L("x", age=2)), "/", only, ["age"], ("corpus", "twin")))
+    # ---- large trees: more than 1000 merged paths, the differences near the end of the path order (row positions
+    # >= 1000 of the frames the function builds: chunked or position/label based row handling shows only there)
+    def big(last_leaf, extra, age):
+        kids = []
+        for i in range(36):
+            leaves = [L("l%02d" % j, **({"age": age} if (i, j) == (35, 27) else {})) for j in range(29)]
+            if i == 35:
+                leaves = leaves[:28] + ([L(last_leaf)] if last_leaf else []) + ([L(extra)] if extra else [])
+            kids.append(L("n%02d" % i, *leaves))
+        return L("r", *kids)
+    for only in (True, False):
+        cases.append(mk(big("l28", None, 1), big(None, "zz", 2), "/", only, ["age"], ("corpus", "large", "only" if only else "all")))
     return cases
 
 
